@@ -53,10 +53,14 @@ package segreader
 //@ end
 
 //@ func (*SegmentFileReader).unpackRawCsg
-//@   props C18
+//@   props C18 C01
 //@   modifies sfr.currRawBlockBuffer, sfr.currOffset, sfr.currRecLen, sfr.currRecordNum, sfr.currUncompressedBlockLen, allbytes
 //@   note only the frame is claimed; that a decompressed block starts with a whole record header is an UNCHECKED site assumption (the chunk passed its CRC, so these are the bytes the writer produced)
+// (C01) the length of the block's first record is read from the bytes the
+// decoder RETURNED (it may have allocated a larger buffer than the one it was
+// given), at offset 0: the reader has been switched to the decoded block first
 //@   site call sfr.getCurrentRecordLength #1:
+//@     assert [the-first-record-is-measured-in-the-decoded-block] samebase(sfr.currRawBlockBuffer, uncompressed) && len(sfr.currRawBlockBuffer) == len(uncompressed) && sfr.currOffset == 0
 //@     assume len(sfr.currRawBlockBuffer) > 3
 // C18 (damage in one segment does not affect results from others): the pooled
 // block buffer goes back to the pool only when the reader stops referring to
